@@ -3,7 +3,9 @@
  *  - USE_CUSTOM_REGISTERS: two additional register groups
  *      VOLT: event/enable/condition with PTRansition and NTRansition filters, summarised into bit 0 of the
  *            QUEStionable condition register (the SCPI-99 QUEStionable:VOLTage fan-out)
- *      AUX:  event/enable/condition without filters, summarised into bit 10 of the OPERation condition register
+ *      INST, ISUM, CHAN, AUX: four levels without filters stacked on each other
+ *            (AUX -> CHAN condition bit 3 -> ISUM condition bit 2 -> INST condition bit 1 -> QUEStionable condition bit 13)
+ *  - SCPI_LINE_ENDING is a run-time value (a pointer the application sets), not a string literal
  *  - USE_USER_ERROR_LIST: six application error codes whose descriptions contain what a device-dependent text may
  *      contain too: double quotes, a semicolon, nothing at all, more than 60 characters */
 #ifndef SCPI_USER_CONFIG_H
@@ -13,10 +15,13 @@
 
 #define USER_REGISTERS \
     USER_REG_VOLT, USER_REG_VOLTE, USER_REG_VOLTC, USER_REG_VOLTP, USER_REG_VOLTN, \
-    USER_REG_AUX, USER_REG_AUXE, USER_REG_AUXC,
+    USER_REG_AUX, USER_REG_AUXE, USER_REG_AUXC, \
+    USER_REG_INST, USER_REG_INSTE, USER_REG_INSTC, \
+    USER_REG_ISUM, USER_REG_ISUME, USER_REG_ISUMC, \
+    USER_REG_CHAN, USER_REG_CHANE, USER_REG_CHANC,
 
 #define USER_REGISTER_GROUPS \
-    USER_REG_GROUP_VOLT, USER_REG_GROUP_AUX,
+    USER_REG_GROUP_VOLT, USER_REG_GROUP_AUX, USER_REG_GROUP_INST, USER_REG_GROUP_ISUM, USER_REG_GROUP_CHAN,
 
 #define USER_REGISTER_DETAILS \
     { SCPI_REG_CLASS_EVEN, USER_REG_GROUP_VOLT }, \
@@ -26,11 +31,35 @@
     { SCPI_REG_CLASS_NTR,  USER_REG_GROUP_VOLT }, \
     { SCPI_REG_CLASS_EVEN, USER_REG_GROUP_AUX }, \
     { SCPI_REG_CLASS_ENAB, USER_REG_GROUP_AUX }, \
-    { SCPI_REG_CLASS_COND, USER_REG_GROUP_AUX },
+    { SCPI_REG_CLASS_COND, USER_REG_GROUP_AUX }, \
+    { SCPI_REG_CLASS_EVEN, USER_REG_GROUP_INST }, \
+    { SCPI_REG_CLASS_ENAB, USER_REG_GROUP_INST }, \
+    { SCPI_REG_CLASS_COND, USER_REG_GROUP_INST }, \
+    { SCPI_REG_CLASS_EVEN, USER_REG_GROUP_ISUM }, \
+    { SCPI_REG_CLASS_ENAB, USER_REG_GROUP_ISUM }, \
+    { SCPI_REG_CLASS_COND, USER_REG_GROUP_ISUM }, \
+    { SCPI_REG_CLASS_EVEN, USER_REG_GROUP_CHAN }, \
+    { SCPI_REG_CLASS_ENAB, USER_REG_GROUP_CHAN }, \
+    { SCPI_REG_CLASS_COND, USER_REG_GROUP_CHAN },
 
+/* the SCPI-99 QUEStionable:INSTrument:ISUMmary fan-out and two more levels below it (per-channel and per-channel auxiliary
+ * status): AUX -> CHAN condition bit 3 -> ISUM condition bit 2 -> INST condition bit 1 -> QUES condition bit 13 -> STB */
 #define USER_REGISTER_GROUP_DETAILS \
     { USER_REG_VOLT, USER_REG_VOLTE, USER_REG_VOLTC, USER_REG_VOLTP, USER_REG_VOLTN, SCPI_REG_QUESC, 0x0001 }, \
-    { USER_REG_AUX, USER_REG_AUXE, USER_REG_AUXC, SCPI_REG_NONE, SCPI_REG_NONE, SCPI_REG_OPERC, 0x0400 },
+    { USER_REG_AUX, USER_REG_AUXE, USER_REG_AUXC, SCPI_REG_NONE, SCPI_REG_NONE, USER_REG_CHANC, 0x0008 }, \
+    { USER_REG_INST, USER_REG_INSTE, USER_REG_INSTC, SCPI_REG_NONE, SCPI_REG_NONE, SCPI_REG_QUESC, 0x2000 }, \
+    { USER_REG_ISUM, USER_REG_ISUME, USER_REG_ISUMC, SCPI_REG_NONE, SCPI_REG_NONE, USER_REG_INSTC, 0x0002 }, \
+    { USER_REG_CHAN, USER_REG_CHANE, USER_REG_CHANC, SCPI_REG_NONE, SCPI_REG_NONE, USER_REG_ISUMC, 0x0004 },
+
+/* the response terminator is chosen when the instrument starts (a front-panel setting), not when it is compiled */
+#ifdef __cplusplus
+extern "C" {
+#endif
+extern const char * scpisim_line_ending;
+#ifdef __cplusplus
+}
+#endif
+#define SCPI_LINE_ENDING scpisim_line_ending
 
 #define USE_USER_ERROR_LIST 1
 
